@@ -17,6 +17,7 @@ import (
 	"github.com/buildbarn/bb-storage/pkg/digest"
 	"github.com/buildbarn/bb-storage/pkg/proto/iscc"
 	"github.com/prometheus/client_golang/prometheus"
+	"github.com/prometheus/client_golang/prometheus/collectors"
 	"pgregory.net/rapid"
 
 	"google.golang.org/grpc/codes"
@@ -277,6 +278,39 @@ func (p calcParams) build() initialsizeclass.StrategyCalculator {
 	return initialsizeclass.NewPageRankStrategyCalculator(p.minTimeout, p.exponent, p.multiplier, p.maxError)
 }
 
+// pageRankIterations reads how many power iterations the PageRank
+// calculator has performed so far (its Prometheus histogram is the only
+// place where this is visible): number of computations and their sum.
+func pageRankIterations() (uint64, float64) {
+	mfs, err := prometheus.DefaultGatherer.Gather()
+	if err != nil {
+		return 0, 0
+	}
+	for _, mf := range mfs {
+		if mf.GetName() == "buildbarn_builder_page_rank_strategy_calculator_convergence_iterations" && len(mf.Metric) > 0 {
+			h := mf.Metric[0].GetHistogram()
+			return h.GetSampleCount(), h.GetSampleSum()
+		}
+	}
+	return 0, 0
+}
+
+func (c *wfCase) labelIterations(countBefore uint64, sumBefore float64) {
+	count, sum := pageRankIterations()
+	if count == countBefore {
+		return
+	}
+	c.label("pagerank:power-iteration-ran")
+	switch it := sum - sumBefore; {
+	case it > 64:
+		c.label("pagerank:iterations>64")
+	case it > 16:
+		c.label("pagerank:iterations>16")
+	case it > 4:
+		c.label("pagerank:iterations>4")
+	}
+}
+
 // ---------------------------------------------------------------------
 // Well-formedness of one choice
 
@@ -523,13 +557,18 @@ func (c *wfCase) opSelect() {
 		if n >= 2 && succ && fail {
 			c.mixed = true
 		}
-		if n >= 2 && consultsStrategies && c.calcKind == "pagerank" && largestHasSuccess(model.asMap(), classes) {
-			c.label("select:pagerank-iterated")
-		}
 	}
 
 	calls := c.rng.calls
+	var itCount uint64
+	var itSum float64
+	if c.calcKind == "pagerank" {
+		itCount, itSum = pageRankIterations()
+	}
 	index, expected, timeout, learner := ch.selector.Select(classes)
+	if c.calcKind == "pagerank" {
+		c.labelIterations(itCount, itSum)
+	}
 	r := "-"
 	if c.rng.calls != calls {
 		r = fmt.Sprint(c.rng.last)
@@ -831,12 +870,10 @@ func (c *wfCase) runCalculator() {
 	n := len(classes)
 	succ, fail := outcomeMix(st.SizeClasses, classes)
 	c.mixed = n >= 2 && succ && fail
-	iterated := n >= 2 && params.kind == "pagerank" && largestHasSuccess(st.SizeClasses, classes)
-	if iterated {
-		c.label("calculator:pagerank-iterated")
-	}
 	for round := 0; round < 2; round++ {
+		itCount, itSum := pageRankIterations()
 		strategies := calc.GetStrategies(st.SizeClasses, append([]uint32{}, classes...), original)
+		c.labelIterations(itCount, itSum)
 		c.add("getStrategies", fmt.Sprint(round), fmt.Sprintf("%+v", strategies))
 		checkStrategies(c.failf, strategies, n, original)
 		if len(strategies) == n && n > 1 {
@@ -1020,6 +1057,11 @@ func TestC07ChoicesWellFormed(t *testing.T) {
 			"and sum <= 1 (1e-9), at most n strategies, IsFaster in (0,1), x.IsFaster(x)=0.5, x.IsFaster(y)+y.IsFaster(x)=1, one release per request, and recorded stats equal to a "+
 			"model fed with the reported outcomes (right bucket, bounded history). NON-TRIVIAL: at least two size classes (or two outcome sets) holding both successes and "+
 			"failures/timeouts; distinct by script hash")
+	// Keep reading the iteration histogram cheap: drop the collectors
+	// that client_golang registers by default.
+	prometheus.Unregister(collectors.NewGoCollector())
+	prometheus.Unregister(collectors.NewProcessCollector(collectors.ProcessCollectorOpts{}))
+	initialsizeclass.NewPageRankStrategyCalculator(0, 0, 1, 0.1) // registers the histogram
 	rapid.Check(t, func(rt *rapid.T) {
 		c := &wfCase{rt: rt, labels: map[string]bool{}}
 		mode := rapid.SampledFrom([]string{
